@@ -2,7 +2,7 @@
    (Real64 value path = Float64 value path, for every carrier), and the refutations that
    document the genuine defects of the unchanged library. *)
 From Coq Require Import Reals ZArith List Bool Lra Lia.
-From ADV Require Import Base.Num C02.Model C02.Spec.
+From ADV Require Import Base.Num C02.Model C02.Spec C02.ProofsInt C02.ProofsReal.
 Import ListNotations.
 Open Scope Z_scope.
 
@@ -112,10 +112,16 @@ Proof. unfold smoothmax. rewrite real64_smoothmax_loop. reflexivity. Qed.
 
 End Conv.
 
-(* ---- concrete ABS inspects the receiver's previous value, not the operand *)
-Lemma ABS_refuted sp :
-  ABS_ (CarX sp) TFloat64 (VF (Some 0%R)) (VF (Some (-3)%R)) = Val (VF (Some (-3)%R)).
-Proof.
-  unfold ABS_, sign. simpl. unfold Rltb.
-  destruct (Rlt_dec 0 0); [lra|]. simpl. destruct (Rlt_dec 0 0); [lra|]. reflexivity.
-Qed.
+(* ---- concrete ABS (fix 2fc8894 in /repo): the sign of the ARGUMENT decides, the receiver's previous value is irrelevant *)
+Lemma ABS_is_abs {A} (C : Car A) t cold a : ABS_ C t cold a = abs_ C t (t, a).
+Proof. reflexivity. Qed.
+Lemma ABS_ignores_receiver {A} (C : Car A) t cold cold' a : ABS_ C t cold a = ABS_ C t cold' a.
+Proof. reflexivity. Qed.
+Lemma ABS_named sp t cold x : fty t -> ABS_ (CarX sp) t cold (VF (Some x)) = Val (VF (Some (Rabs x))).
+Proof. intros H. unfold ABS_. apply abs_named; auto. Qed.
+Lemma ABS_int {A} (C : Car A) t cold x : int_ty t -> wrap (bits (base_of t)) x = x ->
+  ABS_ C t cold (VI x) = Val (VI (wrap (bits (base_of t)) (Z.abs x))).
+Proof. intros Ht Hx. unfold ABS_. apply int_abs; auto. destruct Ht; auto. Qed.
+(* the witness of the retired finding F-ABS-CONCRETE (fresh receiver, operand -3) now gives 3 *)
+Lemma ABS_regression sp : ABS_ (CarX sp) TFloat64 (VF (Some 0%R)) (VF (Some (-3)%R)) = Val (VF (Some 3%R)).
+Proof. rewrite ABS_named by reflexivity. rewrite Rabs_left by lra. do 3 f_equal. lra. Qed.
